@@ -70,16 +70,20 @@ cdef class cyQM_template(cyQMBase):
         cdef Py_ssize_t bias_itemsize = self.dtype.itemsize
         cdef Py_ssize_t itemsize = index_itemsize + bias_itemsize
 
-        if num_neighbors*itemsize > buff.size:
+        if num_neighbors > buff.size // itemsize:
             raise RuntimeError
 
         cdef Py_ssize_t i
         cdef index_type ui
         cdef bias_type bias
+        cdef index_type prev = -1
         for i in range(num_neighbors):
             memcpy(&ui, &buff[i*itemsize], index_itemsize)
             memcpy(&bias, &buff[i*itemsize+index_itemsize], bias_itemsize)
 
+            if ui <= prev or ui > vi or vi >= self.num_variables():
+                raise ValueError("invalid neighborhood data")
+            prev = ui
             self.cppqm.add_quadratic_back(ui, vi, bias)
 
     @cython.boundscheck(False)
@@ -104,6 +108,8 @@ cdef class cyQM_template(cyQMBase):
         cdef Py_ssize_t vi
         cdef cppVartype cpp_vartype
         for vi in range(num_variables):
+            if not (0 <= vartype_view[vi] <= 3) or not (lb_view[vi] <= ub_view[vi]):
+                raise ValueError("invalid variable type or bounds")
             self.cppqm.add_variable(<cppVartype>(vartype_view[vi]), lb_view[vi], ub_view[vi])
 
         while self.variables.size() < self.cppqm.num_variables():
